@@ -37,8 +37,9 @@ CASES = [
          new="""    field = [f for f in field]
     field[0] += eval_func(mean, pos, dim, mesh_type, value_type, True)
     field = normalizer.denormalize(field)"""),
-    dict(name="pos-normalised-inplace", file="field/base.py", expect=["R20", "R20f"],
-         old="            self._field_shape = np.shape(self._pos[0])\n", new="            self._field_shape = np.shape(self._pos[0])\n            self._pos[0] -= self._pos[0].min()\n"),
+    dict(name="pos-normalised-inplace", expect=["R20", "R20f"], edits=[
+        dict(file="field/base.py", old="            self._pos = np.array(pos, dtype=np.double).reshape(self.dim, -1)\n", new="            self._pos = np.asarray(pos, dtype=np.double).reshape(self.dim, -1)\n"),
+        dict(file="field/base.py", old="            self._field_shape = np.shape(self._pos[0])\n", new="            self._field_shape = np.shape(self._pos[0])\n            self._pos[0] -= self._pos[0].min()\n")]),
     dict(name="out-kw-on-input", file="krige/tools.py", expect="R20",
          old="    mask = np.isfinite(cond_val)\n", new="    np.nan_to_num(cond_val, out=cond_val)\n    mask = np.isfinite(cond_val)\n"),
     dict(name="field-call-demean-inplace", file="field/base.py", expect="R20",
